@@ -16,6 +16,7 @@ import (
 	"strconv"
 	"strings"
 	"sync"
+	"sync/atomic"
 	"testing"
 	"time"
 
@@ -382,4 +383,21 @@ func safeGen[C any](r *Rec, rt *rapid.T, gen func(*rapid.T) C) C {
 func isRapidControl(e interface{}) bool {
 	s := fmt.Sprintf("%T", e)
 	return strings.HasPrefix(s, "rapid.") || strings.HasPrefix(s, "*rapid.")
+}
+
+// FuzzCount counts an event inside a native fuzz target. Fuzz workers are separate processes that never flush a
+// Rec, so the count is kept per process in $VERIF_OUT/fuzzcount-<name>-<pid>.txt (rewritten every 64 events);
+// the driver sums the files into the evidence.
+var fuzzCounts sync.Map // name -> *int64
+
+func FuzzCount(name string) {
+	out := os.Getenv("VERIF_OUT")
+	if out == "" {
+		return
+	}
+	p, _ := fuzzCounts.LoadOrStore(name, new(int64))
+	n := atomic.AddInt64(p.(*int64), 1)
+	if n == 1 || n%64 == 0 {
+		_ = os.WriteFile(filepath.Join(out, fmt.Sprintf("fuzzcount-%s-%d.txt", name, os.Getpid())), []byte(strconv.FormatInt(n, 10)), 0644)
+	}
 }
